@@ -58,49 +58,73 @@ theorem C06_latest (s : Store) (d : Nat) :
       have := h g (by simpa using hg)
       simpa using this
 
-theorem length_filterMap_parse (l : List RunFile) :
-    (l.filterMap parse).length = (l.filter (fun f => (parse f).isSome)).length := by
-  induction l with
-  | nil => rfl
-  | cons y ys ih =>
-    cases hp : parse y with
-    | none => simpa [List.filterMap_cons_none hp, List.filter_cons, hp] using ih
-    | some b => simp [List.filterMap_cons_some hp, List.filter_cons, hp, ih]
-
-theorem take_filterMap (l : List RunFile) (n : Nat) :
-    (l.filterMap parse).take n = ((l.filter (fun f => (parse f).isSome)).take n).filterMap parse := by
-  induction l generalizing n with
-  | nil => simp
-  | cons y ys ih =>
-    cases hp : parse y with
-    | none => simpa [List.filterMap_cons_none hp, List.filter_cons, hp] using ih n
-    | some b =>
-      cases n with
-      | zero => simp
-      | succ m => simp [List.filterMap_cons_some hp, List.filter_cons, hp, ih m]
-
-/-- **C06 (recent).** `recent d n` lists the last statuses of `min n (#recorded runs)` distinct files of
-    the DAG, newest first, and every recorded file that is left out started no later than every
-    listed one. -/
+/-- **C06 (recent).** `recent d n` lists the last statuses of at most `n` files of the DAG, newest
+    first, no run (request id) twice; and nothing newer is left out: a recorded file that is not
+    listed either belongs to a run that IS listed by a file at least as new, or the list is full and
+    every listed file is at least as new. (`n` distinct most recently started runs, newest first.) -/
 theorem C06_recent (s : Store) (d n : Nat) :
-    ∃ fs rest : List RunFile,
-      recent s d n = fs.filterMap parse ∧ fs.length = (recent s d n).length ∧
-      (fs ++ rest).Perm (recorded s d) ∧ Desc (fs ++ rest) ∧
-      fs.length = min n (recorded s d).length := by
+    ∃ fs : List RunFile,
+      recent s d n = fs.filterMap parse ∧ fs.length = (recent s d n).length ∧ fs.length ≤ n ∧
+      (∀ f ∈ fs, f ∈ recorded s d) ∧ Desc fs ∧ (fs.filterMap reqOf).Nodup ∧
+      ∀ g ∈ recorded s d, g ∉ fs →
+        (∃ f ∈ fs, reqOf f = reqOf g ∧ g.stamp ≤ f.stamp) ∨ (fs.length = n ∧ ∀ f ∈ fs, g.stamp ≤ f.stamp) := by
   let L := newestFirst (glob s d)
-  let W := L.filter (fun f => (parse f).isSome)
-  have hperm : W.Perm (recorded s d) := by
-    refine List.Perm.filter _ ?_
-    exact (sortBy_perm _ _).trans (sortBy_perm _ _)
-  have hdesc : Desc W := List.Pairwise.sublist List.filter_sublist (newestFirst_desc (glob s d))
-  have ht := take_filterMap L n
-  refine ⟨W.take n, W.drop n, ?_, ?_, ?_, ?_, ?_⟩
-  · exact ht
-  · show (W.take n).length = ((L.filterMap parse).take n).length
-    rw [List.length_take, List.length_take, length_filterMap_parse]
-  · rw [List.take_append_drop]; exact hperm
-  · rw [List.take_append_drop]; exact hdesc
-  · rw [List.length_take, hperm.length_eq]
+  let D := dedupFiles L []
+  have hL : Desc L := newestFirst_desc (glob s d)
+  have hsub : D.Sublist L := dedup_sublist L []
+  have hD : Desc D := List.Pairwise.sublist hsub hL
+  obtain ⟨hpar, hnd⟩ := dedup_spec L []
+  have hmemL : ∀ f, f ∈ L ↔ f ∈ filesOf s d := by
+    intro f; rw [mem_newestFirst, mem_glob]; simp [filesOf]
+  have hrec : ∀ f ∈ D, f ∈ recorded s d := by
+    intro f hf
+    obtain ⟨ln, hln, _⟩ := hpar f hf
+    simp only [recorded, List.mem_filter]
+    exact ⟨(hmemL f).mp (hsub.subset hf), by simp [hln]⟩
+  have hallsome : ∀ m : List RunFile, (∀ f ∈ m, ∃ ln, parse f = some ln ∧ ln.req ∉ ([] : List Nat)) →
+      (m.filterMap parse).length = m.length := by
+    intro m hm
+    induction m with
+    | nil => rfl
+    | cons y ys ih =>
+      obtain ⟨ln, hln, _⟩ := hm y List.mem_cons_self
+      rw [List.filterMap_cons_some hln]
+      simp [ih (fun f hf => hm f (List.mem_cons_of_mem _ hf))]
+  refine ⟨D.take n, rfl, ?_, ?_, ?_, ?_, ?_, ?_⟩
+  · show (D.take n).length = ((D.take n).filterMap parse).length
+    exact (hallsome _ (fun f hf => hpar f (List.mem_of_mem_take hf))).symm
+  · rw [List.length_take]; exact Nat.min_le_left _ _
+  · intro f hf; exact hrec f (List.mem_of_mem_take hf)
+  · exact List.Pairwise.sublist (List.take_sublist n D) hD
+  · exact (List.Sublist.filterMap reqOf (List.take_sublist n D)).nodup hnd
+  · intro g hg hnot
+    simp only [recorded, List.mem_filter] at hg
+    obtain ⟨ln, hln⟩ := Option.isSome_iff_exists.mp hg.2
+    rcases dedup_complete L [] hL g ((hmemL g).mpr hg.1) ln hln with h | ⟨f, hf, hr, hle⟩
+    · cases h
+    · -- f ∈ D carries g's request id and is at least as new; is it within the first n?
+      by_cases hft : f ∈ D.take n
+      · exact Or.inl ⟨f, hft, by rw [hr]; simp [reqOf, hln], hle⟩
+      · right
+        -- f is beyond position n: the list is full and everything listed precedes f in D
+        have hsplit : D = D.take n ++ D.drop n := (List.take_append_drop n D).symm
+        have hfd : f ∈ D.drop n := by
+          have : f ∈ D.take n ++ D.drop n := by rw [← hsplit]; exact hf
+          rcases List.mem_append.mp this with h | h
+          · exact absurd h hft
+          · exact h
+        constructor
+        · rw [List.length_take]
+          have : n < D.length := by
+            rcases Nat.lt_or_ge n D.length with h | h
+            · exact h
+            · have : D.drop n = [] := List.drop_eq_nil_of_le h
+              rw [this] at hfd; cases hfd
+          omega
+        · intro f' hf'
+          have hpw : (D.take n ++ D.drop n).Pairwise (fun a b => b.stamp ≤ a.stamp) := by rw [← hsplit]; exact hD
+          have := (List.pairwise_append.mp hpw).2.2 f' hf' f hfd
+          omega
 
 /-- **C06 (independence).** An operation (open, write, close, update, retention, rename) leaves every
     query on every DAG it does not address unchanged. -/
@@ -161,6 +185,7 @@ def demo : Store :=
 
 example : (latest demo 0).map (·.pay) = some 4 := by decide
 example : (recent demo 0 5).map (·.pay) = [4, 1] := by decide
+example : (recent demo 0 1).map (·.pay) = [4] := by decide
 example : (find demo 0 70).map (·.2.pay) = some 1 := by decide
 example : (find demo 1 70).map (·.2.pay) = none := by decide
 example : (latest demo 1).map (·.pay) = some 3 := by decide
